@@ -20,7 +20,8 @@ vars == <<tops, kidtype, kid2, keyby, paths, sec, main, pkgs>>
 Init ==
   CASE Slice = "variants" ->
          /\ tops \in UNION {kSubset(k, Tops) : k \in 1..3}
-         /\ kidtype \in [tops -> Types \cup {"none"}] /\ (\A t \in tops : t \notin Plain => kidtype[t] = "none")
+         /\ kidtype \in [tops -> Types \cup {"none", "pair"}] /\ (\A t \in tops : t \notin Plain => kidtype[t] = "none")
+         /\ (\A t \in tops : kidtype[t] = "pair" => t = "A" /\ "S-o" \notin tops)     \* ("S-o" concretises to the UID of A's optional child)
          /\ kid2 \in [tops -> BOOLEAN] /\ (\A t \in tops : kid2[t] => (kidtype[t] # "none" /\ t = "A"))
          /\ keyby \in {"uid", "id"} /\ (keyby = "id" => tops \cap {"S-o", "S-T"} # {})
          /\ paths = [t \in tops |-> {}] /\ pkgs = [t \in tops |-> {"packages", "repository"}]
@@ -35,9 +36,9 @@ Init ==
     [] Slice = "sections" ->
          /\ tops = {"A"} /\ kidtype = [t \in tops |-> "none"] /\ kid2 = [t \in tops |-> FALSE] /\ keyby = "uid"
          /\ paths = [t \in tops |-> {}] /\ pkgs = [t \in tops |-> {"packages"}] /\ main = "default"
-         /\ sec \in [arch : {"bin", "src"}, plats : {{}, {"p1"}, {"p1", "p2"}}, layered : BOOLEAN, imgs : {"none", "one", "two"},
+         /\ sec \in [arch : {"bin", "src"}, plats : {{}, {"p1"}, {"p1", "p2"}}, layered : BOOLEAN, imgs : {"none", "one", "two", "emptyp1"},
                      stage2 : {"none", "main", "both"}, media : BOOLEAN, cks : BOOLEAN, ts : {"int", "float", "neg"}]
-         /\ (sec.imgs = "two" => "p1" \in sec.plats)
+         /\ (sec.imgs \in {"two", "emptyp1"} => "p1" \in sec.plats)
     [] Slice = "discinfo" ->
          /\ tops = {"A"} /\ kidtype = [t \in tops |-> "none"] /\ kid2 = [t \in tops |-> FALSE] /\ keyby = "uid"
          /\ paths = [t \in tops |-> {}] /\ pkgs = [t \in tops |-> {}] /\ main = "default"
@@ -49,12 +50,18 @@ Key(t) == IF keyby = "uid" THEN t ELSE IdOf(t)
 Csv(S) == [csv |-> S]                           \* rendered as ",".join(sorted(S))
 PathVal(u, k) == "$path:" \o u \o ":" \o k
 SecName(u, ty) == (IF ty = "addon" THEN "addon-" ELSE "variant-") \o u
+\* "pair": TWO children of different kinds under one parent - the addon "h" and the optional variant "o" (the 1.0 / 1.1 format
+\* documents list them in two options, `addons` and `variants`; the current writer lists every child under `addons`)
+KidType(t) == IF kidtype[t] = "pair" THEN "addon" ELSE kidtype[t]
+WithSib == {t \in tops : kidtype[t] = "pair"}
 WithKid == {t \in tops : kidtype[t] # "none"}
 WithKid2 == {t \in tops : kid2[t]}
 TopSec(t) == ("id" :> IdOf(t)) @@ ("uid" :> t) @@ ("name" :> "$name:" \o t) @@ ("type" :> TypeOf(t))
              @@ [k \in paths[t] |-> PathVal(t, k)] @@ [k \in pkgs[t] |-> PathVal(t, k)]
-             @@ (IF kidtype[t] # "none" THEN ("addons" :> Csv({t \o "-h"})) ELSE Empty)
-KidSec(t) == ("id" :> "h") @@ ("uid" :> t \o "-h") @@ ("name" :> "$name:" \o t \o "-h") @@ ("type" :> kidtype[t])
+             @@ (IF kidtype[t] # "none" THEN ("addons" :> Csv({t \o "-h"} \cup (IF kidtype[t] = "pair" THEN {t \o "-o"} ELSE {}))) ELSE Empty)
+SibSec(t) == ("id" :> "o") @@ ("uid" :> t \o "-o") @@ ("name" :> "$name:" \o t \o "-o") @@ ("type" :> "optional")
+             @@ ("parent" :> t) @@ ("packages" :> PathVal(t \o "-o", "packages"))
+KidSec(t) == ("id" :> "h") @@ ("uid" :> t \o "-h") @@ ("name" :> "$name:" \o t \o "-h") @@ ("type" :> KidType(t))
              @@ ("parent" :> t) @@ ("packages" :> PathVal(t \o "-h", "packages"))
              @@ (IF kid2[t] THEN ("addons" :> Csv({t \o "-h-g"})) ELSE Empty)
 Kid2Sec(t) == ("id" :> "g") @@ ("uid" :> t \o "-h-g") @@ ("name" :> "$name:" \o t \o "-h-g") @@ ("type" :> "addon")
@@ -70,15 +77,19 @@ ImgSecs == CASE sec.imgs = "none" -> Empty
              [] sec.imgs = "one" -> ("images-$arch" :> (("boot.iso" :> "$img:boot") @@ ("Kernel" :> "$img:kernel")))
              [] sec.imgs = "two" -> ("images-$arch" :> (("boot.iso" :> "$img:boot") @@ ("Kernel" :> "$img:kernel")))
                                     @@ ("images-p1" :> (("kernel" :> "$img:xenkernel") @@ ("initrd.IMG" :> "$img:initrd")))
+             \* a platform whose image table is (still) empty: its section is written, empty, and read back
+             [] sec.imgs = "emptyp1" -> ("images-$arch" :> (("boot.iso" :> "$img:boot") @@ ("Kernel" :> "$img:kernel")))
+                                        @@ ("images-p1" :> Empty)
 Stage2Sec == CASE sec.stage2 = "none" -> Empty [] sec.stage2 = "main" -> ("stage2" :> ("mainimage" :> "$img:stage2"))
                [] sec.stage2 = "both" -> ("stage2" :> (("mainimage" :> "$img:stage2") @@ ("instimage" :> "$img:inst")))
 \* "$discnum" / "$totaldiscs": any integers (the harness rotates 2/3, 1/1, 0/0 - a set that is numbered from nought)
 MediaSec == IF sec.media THEN ("media" :> (("discnum" :> "$discnum") @@ ("totaldiscs" :> "$totaldiscs"))) ELSE Empty
 CksSec == IF sec.cks THEN ("checksums" :> (("$img:boot" :> "$cks:sha256") @@ ("Repo/repomd.XML" :> "$cks:md5"))) ELSE Empty
-Doc == [s \in {SecName(t, "variant") : t \in tops} \cup {SecName(t \o "-h", kidtype[t]) : t \in WithKid}
-              \cup {SecName(t \o "-h-g", "addon") : t \in WithKid2} |->
+Doc == [s \in {SecName(t, "variant") : t \in tops} \cup {SecName(t \o "-h", KidType(t)) : t \in WithKid}
+              \cup {SecName(t \o "-h-g", "addon") : t \in WithKid2} \cup {SecName(t \o "-o", "optional") : t \in WithSib} |->
           IF \E t \in tops : s = SecName(t, "variant") THEN TopSec(CHOOSE t \in tops : s = SecName(t, "variant"))
-          ELSE IF \E t \in WithKid : s = SecName(t \o "-h", kidtype[t]) THEN KidSec(CHOOSE t \in WithKid : s = SecName(t \o "-h", kidtype[t]))
+          ELSE IF \E t \in WithSib : s = SecName(t \o "-o", "optional") THEN SibSec(CHOOSE t \in WithSib : s = SecName(t \o "-o", "optional"))
+          ELSE IF \E t \in WithKid : s = SecName(t \o "-h", KidType(t)) THEN KidSec(CHOOSE t \in WithKid : s = SecName(t \o "-h", KidType(t)))
           ELSE Kid2Sec(CHOOSE t \in WithKid2 : s = SecName(t \o "-h-g", "addon"))]
        @@ ("header" :> (("type" :> "productmd.treeinfo") @@ ("version" :> "$current")))
        @@ ("release" :> (("name" :> "$relname") @@ ("short" :> "$relshort") @@ ("version" :> "$relver")
@@ -92,7 +103,7 @@ Emit == IF Slice = "discinfo" THEN PrintT("@@" \o ToJson([disc |-> sec]))
         ELSE PrintT("@@" \o ToJson([obj |-> Obj, doc |-> Doc]))
 \* ---- model-level checks
 SectionPerVariant == Slice # "discinfo" =>
-                       Cardinality({s \in DOMAIN Doc : \E i \in 1..1 : "uid" \in DOMAIN Doc[s]}) = Cardinality(tops) + Cardinality(WithKid) + Cardinality(WithKid2)
+                       Cardinality({s \in DOMAIN Doc : \E i \in 1..1 : "uid" \in DOMAIN Doc[s]}) = Cardinality(tops) + Cardinality(WithKid) + Cardinality(WithKid2) + Cardinality(WithSib)
 TreeListsTops == Slice # "discinfo" => Doc["tree"]["variants"].csv = tops
 ArchInPlatforms == Slice # "discinfo" => "$arch" \in Doc["tree"]["platforms"].csv /\ Doc["general"]["platforms"] = Doc["tree"]["platforms"]
 GeneralMirrors == Slice # "discinfo" => /\ Doc["general"]["family"] = Doc["release"]["name"] /\ Doc["general"]["version"] = Doc["release"]["version"]
